@@ -162,6 +162,28 @@ CHECKS = {
              "is not interpolated (C20 table).",
         technique="TLA+ exact-rational transcription of the regridding stages + TLC invariants + replay of every state",
         ref="§4 C08", engine="tlc"),
+    "C09": dict(
+        text="Split.tla defines PTM4 (sea iff celerity class <= wind-component class, equality included), BBOX (inclusive membership, "
+             "omitted limits = grid extremes, complement last, overlapping rectangles and fmin >= fmax rejected), the band split (bins "
+             "inside unchanged, linearly interpolated rows at off-grid cutoffs) and PTM5 (cutoff inserted by Regrid with one "
+             "variance-preserving factor, zero strictly beyond the cutoff) in exact arithmetic; MC_Split enumerates sparse spectra "
+             "(every bin / pair / triple of bins) on 4x3 and 4x4 grids with sorted, offset and unsorted directions x wind patterns x "
+             "box sets x cutoffs on and off nodes and checks Ptm4OK, BboxOK, OverlapRejected, BandOK, Ptm5OK; states are replayed into "
+             "ptm4, bbox, split, ptm5 and stats(limits) and compared with the exact result by label.",
+        note="Trusted: TLC; PTM4 wind patterns realised with per-direction wind aligned with each bin (agefac 1), equality through the "
+             "library's own celerity value; finite depth 40 m. Defect found and repaired: bbox default dmax.",
+        technique="TLA+ exact transcription of the split rules + TLC invariants + replay of every state",
+        ref="§4 C09", engine="tlc"),
+    "C16": dict(
+        text="Smooth.tla defines smoothing as an exact-rational window mean on the stored (possibly unsorted) direction order, circular on "
+             "a full-circle grid, input value where the window does not fit, even windows rejected; MC_Smooth enumerates spectra x 8 "
+             "direction grids (sorted, rolled, descending, unsorted, partial, 3-6 directions) x independent windows {1,2,3,5}^2 and checks "
+             "WithinWindowMinMax, NonNegative, ConstantPreserved, WindowOneIdentity, CommutesWithDirShift, EvenRejected; every state is "
+             "replayed into spec.smooth and smooth_spec (dims, coordinates and their order must be the input's; values exact), and "
+             "larger 8/24/32-direction grids with leading dimensions are checked against the circular window mean and shift commutation.",
+        note="Trusted: TLC; spacings whole or dyadic degrees (float32 labels inside smooth_spec); windows do not exceed the grid size.",
+        technique="TLA+ exact window-mean model + TLC invariants + replay of every state",
+        ref="§4 C16", engine="tlc"),
 }
 
 NOT_YET = "check not yet built in this round (see DESIGN.md §4 for the planned TLA+ model); not claimed"
